@@ -3,6 +3,7 @@ package core
 import (
 	"fmt"
 	"sort"
+	"strings"
 
 	"github.com/truora/minidyn/interpreter"
 	"github.com/truora/minidyn/types"
@@ -270,7 +271,45 @@ func (t *Table) fetchQueryData(input QueryInput) (*index, []string) {
 	return nil, t.SortedKeys
 }
 
-func prepareSearch(input *QueryInput, index *index, k, startKey string) (string, bool) {
+// searchStart is the position after which a paginated search resumes
+type searchStart struct {
+	key      string // primary key of the exclusive start key
+	indexKey string // index key of the exclusive start key, when searching an index
+}
+
+func (t *Table) parseSearchStart(index *index, exclusiveStartKey map[string]*types.Item) searchStart {
+	start := searchStart{key: t.parseStartKey(t.KeySchema, exclusiveStartKey)}
+
+	if index != nil && start.key != "" {
+		start.indexKey, _ = index.keySchema.GetKey(t.AttributesDef, exclusiveStartKey)
+	}
+
+	return start
+}
+
+// isAfter tells if the entry is positioned after the start key in the search order,
+// it does not need the item of the start key to be still there
+func (s searchStart) isAfter(index *index, k, pk string, forward bool) bool {
+	cmp := strings.Compare(pk, s.key)
+
+	if index != nil {
+		if s.indexKey == "" {
+			return false
+		}
+
+		if c := strings.Compare(k, s.indexKey); c != 0 {
+			cmp = c
+		}
+	}
+
+	if forward {
+		return cmp > 0
+	}
+
+	return cmp < 0
+}
+
+func prepareSearch(input *QueryInput, index *index, k string, start searchStart) (string, bool) {
 	pk, ok := getPrimaryKey(index, k)
 	if !ok {
 		return pk, ok
@@ -280,7 +319,13 @@ func prepareSearch(input *QueryInput, index *index, k, startKey string) (string,
 		return pk, true
 	}
 
-	if pk == startKey {
+	if start.isAfter(index, k, pk, input.ScanIndexForward) {
+		input.started = true
+
+		return pk, true
+	}
+
+	if pk == start.key {
 		input.started = true
 	}
 
@@ -332,7 +377,8 @@ func (t *Table) SearchData(input QueryInput) ([]map[string]*types.Item, map[stri
 	exclusiveStartKey := input.ExclusiveStartKey
 	index, sortedKeys := t.fetchQueryData(input)
 
-	startKey := t.parseStartKey(t.KeySchema, exclusiveStartKey)
+	start := t.parseSearchStart(index, exclusiveStartKey)
+	startKey := start.key
 	input.started = startKey == ""
 	last := map[string]*types.Item{}
 	sortedKeysSize := int64(len(sortedKeys))
@@ -347,7 +393,7 @@ func (t *Table) SearchData(input QueryInput) ([]map[string]*types.Item, map[stri
 	for pos := range sortedKeys {
 		k := GetKeyAt(sortedKeys, sortedKeysSize, int64(pos), forward)
 
-		pk, ok := prepareSearch(&input, index, k, startKey)
+		pk, ok := prepareSearch(&input, index, k, start)
 		if !ok {
 			scanned++
 			continue
